@@ -16,7 +16,8 @@ TARGETS = ['C02/Props.vo', 'C02/Corr.vo']
 MODEL_TARGETS = ['C02/Corr.vo']
 PROPS_FILE = 'C02/Props.v'
 PROPS_MODULE = 'QV.C02.Props'
-CORR_IMPORTS = ['QV.C02.Spec', 'QV.C02.Model', 'QV.C02.Stack', 'QV.C02.Merge', 'QV.C02.Rewrite', 'QV.C02.Corr']
+CORR_IMPORTS = ['QV.C02.Spec', 'QV.C02.Model', 'QV.C02.Stack', 'QV.C02.Merge', 'QV.C02.Rewrite', 'QV.C02.Flatten',
+                'QV.C02.Params', 'QV.C02.Vol', 'QV.C02.Corr']
 CHECK_CORR = 'check_corr'
 CHECK_SPEC = 'check_spec'
 SHARD = 120
@@ -523,6 +524,7 @@ def gen_cases(rng, tier, ctx):
         if c['op'][0] == 'flatten':
             cases.append(dict(c, side='corr'))
             cases.append(dict(c, side='spec'))
+            cases.append(dict(c, side='model'))     # against the Coq model of flatten_and_balance itself
         else:
             cases.append(c)
     k = 0
@@ -546,17 +548,22 @@ def gen_cases(rng, tier, ctx):
         c['vol'] = sorted({'n0', 'n1'} & free_params(c['pt']))
         if not c['vol']:
             continue
-        c['env']['n0'] = str(rng.choice([1, 2, 3]))
-        c['env']['n1'] = str(rng.choice([1, 2, 3]))
-        c['env2'] = dict(c['env'], n0=str(rng.choice([1, 2, 3, 4])), n1=str(rng.choice([1, 2, 4, 6])))
-        # every volatile count at least 1 under both assignments: a repetition that is absent at build time (count 0)
-        # or is switched off later is a different story (see notes: volatile-update-not-followed)
+        zero_ok = rng.random() < 0.3
+        c['env']['n0'] = str(rng.choice([1, 2, 3] + ([0] if zero_ok else [])))
+        c['env']['n1'] = str(rng.choice([1, 2, 3] + ([0] if zero_ok else [])))
+        c['env2'] = dict(c['env'], n0=str(rng.choice([1, 2, 3, 4] + ([0, 0] if zero_ok else []))),
+                         n1=str(rng.choice([1, 2, 4, 6] + ([0, 0] if zero_ok else []))))
+        # volatile counts at least 1 under both assignments, except in the zero family (round 3): a repetition that is
+        # absent at build time (count 0) or is switched off later (negative counts never)
         counts = X.rep_counts(c['pt'], children)
         envs = [{p: F(v) for p, v in e.items()} for e in (c['env'], c['env2'])]
-        if any(e_eval(ce, en) < 1 for ce in counts if e_vars(ce) & set(c['vol']) for en in envs):
+        vals = [e_eval(ce, en) for ce in counts if e_vars(ce) & set(c['vol']) for en in envs]
+        if any(v < 0 or v.denominator != 1 for v in vals) or (not zero_ok and any(v < 1 for v in vals)):
             continue
+        c['zero'] = any(v == 0 for v in vals)
         cases.append(dict(c, side='corr'))
         cases.append(dict(c, side='spec'))
+        cases.append(dict(c, side='guard'))     # under the executable guard the windows MUST follow (no known finding)
         k += 1
     # round 3: aliasing / repeated calls / rebound loop index / coinciding and swapped names / a parameter called t
     C = sys.modules[__name__]
@@ -566,6 +573,15 @@ def gen_cases(rng, tier, ctx):
     cases.extend(fam)
     for c in fam[::6 if tier == 'quick' else 4]:       # the same, call by call on the instrumented builder
         cases.append(dict(c, kind='trace', twice=False))
+    progs = [c for c in cases if c['kind'] == 'prog']
+    for _ in range(120 if tier == 'quick' else 4000):
+        c = dict(rng.choice(progs))
+        declared = sorted(free_params(c['pt']) & set(c['env']))
+        pool = declared if declared and rng.random() < 0.6 else sorted(c['env'])
+        c['drop_params'] = sorted(set(rng.sample(pool, min(len(pool), rng.choice([1, 1, 2])))))
+        c['family'] = 'missing'
+        c['twice'] = False
+        cases.append(c)
     enum3 = R.enum_alias(C) + R.enum_rebind(C) + R.enum_rename(C)
     if tier != 'thorough':
         rng.shuffle(enum3)
@@ -737,6 +753,7 @@ def run_impl(case):
                     mm = dict(mm)
                     if None in pt.measurement_names:
                         mm[None] = None
+                pnames = sorted(str(x) for x in pt.parameter_names) if 'drop_params' in case else None
                 first = None
                 if case.get('twice'):
                     # create_program twice on the same template object: the SECOND program is the observation
@@ -753,10 +770,10 @@ def run_impl(case):
                 except vlib.Timeout:
                     raise
                 except Exception as e:      # any refusal; whether refusing is legitimate is decided by check_spec
-                    return {'rejected': type(e).__name__, 'first': first}
+                    return {'rejected': type(e).__name__, 'first': first, 'pnames': pnames}
                 if prog is None:
-                    return {'none': True, 'first': first}
-                obs = {'dur': vlib.frac_json(prog.duration), 'ws': _windows(prog), 'first': first}
+                    return {'none': True, 'first': first, 'pnames': pnames}
+                obs = {'dur': vlib.frac_json(prog.duration), 'ws': _windows(prog), 'first': first, 'pnames': pnames}
                 obs['ws_again'] = _windows(prog)
                 # second observation point of the property: plotting.render(..., render_measurements=True)[2]
                 from qupulse.plotting import _render_loop
@@ -894,6 +911,12 @@ def to_coq(case, obs):
         o = 'None' if a is None else '(Some (%s, %s))' % (g_q(a['dur']), g_windows(a['ws']))
         return '(CRw %s %s %s %s %s %s)' % (vlib.gbool(case.get('side') == 'spec'), X.g_rw(case['op']), g_loop(case['loop']), g_q(obs['dur0']),
                                          g_windows(obs['ws0']), o)
+    if kind == 'flat' and case.get('side') == 'model':
+        if obs.get('steps') is None or obs.get('after') is None:
+            return 'CPyOnly'
+        steps = vlib.glist(lambda st: '(%s, %s)' % (vlib.glist(vlib.gnat, st[0]), X.g_rw(st[1])), obs['steps'])
+        return '(CFlatM %s %s %s %s %s)' % (g_loop(case['loop']), vlib.gZ(case['op'][1]), steps,
+                                            g_q(obs['after']['dur']), g_windows(obs['after']['ws']))
     if kind == 'flat' and obs.get('steps') is not None and obs.get('after') is not None:
         steps = vlib.glist(lambda st: '(%s, %s)' % (vlib.glist(vlib.gnat, st[0]), X.g_rw(st[1])), obs['steps'])
         a = obs['after']
@@ -905,6 +928,9 @@ def to_coq(case, obs):
         tr = vlib.glist(lambda ev: '(%s, %s)' % (g_ev(ev[0]), vlib.glist(lambda b: vlib.glist(g_frame, b), ev[1])),
                         obs['trace'])
         return '(CTrace %s %s %s %s)' % (g_pt(case['pt']), g_env(case['env']), g_mm(case['mm']), tr)
+    if kind == 'vol' and 'ws2' in obs and case.get('side') == 'guard':
+        return '(CVolG %s %s %s %s %s)' % (g_pt(case['pt']), g_env(case['env']), g_env(case['env2']), g_mm(case['mm']),
+                                           g_windows(obs['ws2']))
     if kind == 'vol' and 'ws2' in obs:
         return '(CVol %s %s %s %s %s %s)' % (vlib.gbool(case.get('side') == 'spec'), g_pt(case['pt']), g_env(case['env']), g_env(case['env2']), g_mm(case['mm']),
                                           g_windows(obs['ws2']))
@@ -912,7 +938,8 @@ def to_coq(case, obs):
         opt = lambda w: 'None' if w is None else '(Some %s)' % g_windows(w)
         return '(CLoop %s %s %s %s %s %s)' % (g_loop(case['loop']), g_q(obs['dur']), g_windows(obs['ws']),
                                               opt(obs['wrev']), opt(obs['wclean']), g_q(obs['durclean']))
-    env = vlib.glist(lambda kv: '(%s, %s)' % (vlib.gN(par_id(kv[0])), g_q(kv[1])), sorted(case['env'].items()))
+    env = vlib.glist(lambda kv: '(%s, %s)' % (vlib.gN(par_id(kv[0])), g_q(kv[1])),
+                     sorted(kv for kv in case['env'].items() if kv[0] not in case.get('drop_params', [])))
     if case['mm'] is None:
         mm = '[]'
     else:
@@ -925,6 +952,14 @@ def to_coq(case, obs):
         o = 'ONone'
     else:
         o = '(OProg %s %s %s %s)' % (g_q(obs['dur']), g_windows(obs['ws']), g_q(obs['durc']), g_windows(obs['wsc']))
+    if 'drop_params' in case:
+        rej = obs.get('rejected') == 'ParameterNotProvidedException'
+        try:
+            pn = vlib.glist(lambda x: vlib.gN(par_id(x)), obs.get('pnames') or [])
+        except (AssertionError, ValueError):
+            return 'CCrash'         # parameter_names reports a name that is no parameter of the generated tree
+        return '(CMissing %s %s %s %s %s %s)' % (g_pt(case['pt']), env, mm, pn, vlib.gbool(rej),
+                                                 'None' if rej else '(Some %s)' % o)
     return '(CProg %s %s %s %s)' % (g_pt(case['pt']), env, mm, o)
 
 
@@ -977,7 +1012,9 @@ def histogram_keys(case, obs):
         keys.append('trace-maxbuilders:%d' % max([len(e[1]) for e in obs['trace']] + [1]))
         keys.append('trace-maxstack:%d' % min(6, max([len(b) for e in obs['trace'] for b in e[1]] + [1])))
     if kind == 'vol' and 'ws2' in obs:
-        keys.append('vol:' + ('follows' if obs['ws2'] == obs.get('ref') else 'stale'))
+        keys.append('vol:' + ('follows' if obs['ws2'] == obs.get('ref') else 'stale') + (':zero-count' if case.get('zero') else ''))
+    if 'drop_params' in case:
+        keys.append('missing:' + ('rejected' if obs.get('rejected') == 'ParameterNotProvidedException' else 'accepted'))
     if case['kind'] in ('prog', 'trace', 'vol'):
         ks = kinds(case['pt'])
         keys += ['node:' + k for k in sorted(set(ks))]
@@ -1006,6 +1043,8 @@ def _name_len(ws):
 
 def classify(case, obs):
     kind = case['kind']
+    if case.get('side') in ('guard', 'model'):
+        return None
     if kind in ('rw', 'vol') and case.get('side') != 'spec':
         return None
     if kind == 'flat' and case.get('side') == 'corr':
@@ -1031,6 +1070,12 @@ def classify(case, obs):
         # placed behind a volatile repetition keep the offset they were given at build time
         if obs['ws2'] != obs['ref'] and _name_len(obs['ws2']) == _name_len(obs['ref']) and obs.get('ws2r') in (None, obs['ws2']):
             return 'volatile-update-stale-offsets'
+        # same finding, zero family: a repetition absent at build time stays absent, one switched to 0 leaves the
+        # windows declared on the RepetitionPT behind (they live in the parent); nothing may be reported that is not
+        # declared under either assignment (names)
+        if case.get('zero') and obs['ws2'] != obs['ref'] and obs.get('ws2r') in (None, obs['ws2']) and \
+                {w[0] for w in obs['ws2']} <= {w[0] for w in obs['ref']} | {w[0] for w in obs['ws1']}:
+            return 'volatile-update-stale-offsets'
     return None
 
 
@@ -1051,7 +1096,7 @@ def py_spec(case, obs):
         return 'plotting.render(..., render_measurements=True)[2] differs from Loop.get_measurement_windows()'
     if case['kind'] == 'vol' and case.get('side') == 'corr' and obs.get('ws2r') is not None and obs['ws2r'] != obs['ws2']:
         return 'after a volatile update plotting reports other windows than Loop.get_measurement_windows()'
-    if case['kind'] == 'flat' and case.get('side') != 'corr':
+    if case['kind'] == 'flat' and case.get('side') not in ('corr', 'model'):
         v = X.flat_verdict(case, obs)
         if v:
             return v[1]
